@@ -662,10 +662,14 @@ func (db *DB) rollbackJournal(ctx context.Context) error {
 
 	// Resize database to size before journal transaction, if a valid header exists.
 	if r.IsValid() {
-		if err := db.truncateDatabase(dbFile, r.commit); err != nil {
+		commit := r.commit
+		if db.pageSize == 0 {
+			commit = 0 // no pages, whatever size the journal names
+		}
+		if err := db.truncateDatabase(dbFile, commit); err != nil {
 			return err
 		}
-		db.pageN.Store(r.commit)
+		db.pageN.Store(commit)
 	}
 
 	if err := dbFile.Sync(); err != nil {
@@ -690,6 +694,12 @@ func (db *DB) rollbackJournal(ctx context.Context) error {
 }
 
 func (db *DB) rollbackJournalSegment(ctx context.Context, r *JournalReader, dbFile *os.File) error {
+	// A journal only holds pages that existed before its transaction. A database
+	// file without pages has none to put back; only the truncation applies.
+	if db.pageSize == 0 {
+		return nil
+	}
+
 	for i := 0; ; i++ {
 		pgno, data, err := r.ReadFrame()
 		if err == io.EOF {
